@@ -77,9 +77,9 @@ func RunCheck(id string, opts *Options) (*Report, int) {
 			return rep, 2
 		}
 	}
-	timeout := 30 * time.Second
+	timeout := 40 * time.Second
 	if opts.Tier == "thorough" {
-		timeout = 120 * time.Second
+		timeout = 150 * time.Second
 	}
 	solver := NewSolver(filepath.Join(opts.Scratch, "smt-"+id), timeout, 16)
 	solver.KeepSMT = opts.KeepSMT
